@@ -179,11 +179,20 @@ func (p *FloatingIPPlugin) unbind(pod *corev1.Pod) error {
 		return err
 	}
 	key := keyObj.KeyInDB
-	if p.cloudProvider != nil {
-		ipInfos, err := p.ipam.ByKeyAndIPRanges(key, nil)
-		if err != nil {
-			return fmt.Errorf("query floating ip by key %s: %v", key, err)
+	ipInfos, err := p.ipam.ByKeyAndIPRanges(key, nil)
+	if err != nil {
+		return fmt.Errorf("query floating ip by key %s: %v", key, err)
+	}
+	for _, ipInfo := range ipInfos {
+		// if we delete a statfulset/tapp pod and a same name pod is created immediately, the event of the old pod may be
+		// handled after resync released its ip and the new pod got bound, the ip belongs to the new pod then
+		if ipInfo.PodUid != "" && ipInfo.PodUid != string(pod.GetUID()) {
+			glog.Infof("ignore unbinding pod %s uid %s, ip %s is now allocated to pod uid %s", key, pod.GetUID(),
+				ipInfo.IPInfo.IP.IP.String(), ipInfo.PodUid)
+			return nil
 		}
+	}
+	if p.cloudProvider != nil {
 		for _, ipInfo := range ipInfos {
 			ipStr := ipInfo.IPInfo.IP.IP.String()
 			glog.Infof("UnAssignIP nodeName %s, ip %s, key %s", ipInfo.NodeName, ipStr, key)
